@@ -249,7 +249,7 @@ fn drive(rep: &mut Report, inputs: &[In], kinds: &[Kind], rng: &mut Rng, head: &
 }
 
 fn run_scalar(ctx: &Ctx) -> Report {
-    let njobs = ctx.pick(480, 4800);
+    let njobs = ctx.pick(4800, 72000);
     let seed = ctx.seed;
     let maxlen = ctx.pick(5000usize, 20000usize);
     let jobs: Vec<usize> = (0..njobs).collect();
@@ -274,7 +274,7 @@ fn run_scalar(ctx: &Ctx) -> Report {
 }
 
 fn run_bars(ctx: &Ctx) -> Report {
-    let njobs = ctx.pick(320, 3200);
+    let njobs = ctx.pick(3200, 48000);
     let seed = ctx.seed;
     let maxlen = ctx.pick(4000usize, 15000usize);
     let jobs: Vec<usize> = (0..njobs).collect();
